@@ -165,6 +165,13 @@ class CSSParser:
         try:
             # TODO: py3 needs bytes here!
             if isinstance(cssText, bytes):
+                if not (encodingOverride or encoding) and (
+                    cssText[:2] in (codecs.BOM_UTF16_LE, codecs.BOM_UTF16_BE)
+                    or cssText[:4] == codecs.BOM_UTF32_BE
+                ):
+                    # the decoder eats the byte order mark: keep what it says
+                    # for the sheet and as encoding of the referring sheet
+                    encoding = cssutils.codec.detectencoding_str(cssText, True)[0]
                 cssText = codecs.getdecoder('css')(
                     cssText, encoding=encodingOverride or encoding
                 )[0]
